@@ -280,13 +280,20 @@ def run(ctx):
         for x in [y for y in zip(res["ops"], res["impl"]) if y[1].startswith("ok mem=x")][:3]:
             ctx.add_sample({"op": x[0][:300], "impl": x[1][:300]})
         second_instance_binary(ctx, corr_broken)
-        # observation (never a violation): documents that are a per-topic cut but not a global cut, on the real code
+        # audit A4: documents that are a per-topic cut but not a global cut, on the real code; a restart from such a file
+        # loads a state the daemon never passed through (Props.C06.cut_full_false) - open known finding
         rc, out = ctx.run_cmd([binp, "-test.run", "^TestVerifMetaCutObservation$", "-test.count=1", "-test.timeout=120s"],
                               timeout=150, env={"VERIF_CUT_PAIRS": ctx.budget(200, 1500), "VERIF_CUT_MS": ctx.budget(1000, 8000)})
         obs = [l for l in out.splitlines() if l.startswith("OBSERVATION")]
         if obs:
             ctx.corr["observation_global_cut"] = obs[0]
-            ctx.notes.append("observation (Props.C06.snapshot_cut is per topic; example cutSchedule): " + obs[0])
+            ctx.notes.append("Props.C06.snapshot_cut is per topic; cut_full_false (cutSchedule): " + obs[0])
+            ctx.evaluations += 1
+            if "restart_from_that_file=loaded-never-passed-state" in obs[0]:
+                ctx.violation("restart-state-never-passed-through",
+                              "a SIGKILL while this document was nsqd.dat leaves it for the restart: " + obs[0][:400],
+                              open(os.path.join(ROOT, "corpus", "C06", "known", "global_cut_two_topics.ops")).read() +
+                              "# observed: " + obs[0] + "\n")
     if (ctx.broken_ties or corr_broken) and not ctx.violations:
         ctx.broken_without_input(ctx.broken_ties + corr_broken,
                                  "search: %d script lines executed on the real daemon; no oracle failed" % ctx.evaluations)
